@@ -176,8 +176,9 @@ class TopLevelVisitor(ast.NodeVisitor):
         # and \r end a line (str.splitlines also breaks at form feeds and
         # other separators, which shifts every line number after them).
         self.sourcelines = re.split('\r\n|\r|\n', self.source)
-        source_utf8  = self.source.encode('utf8')
-        pt = ast.parse(source_utf8)
+        # The text is already decoded: parse it as text, so that a coding
+        # cookie in it cannot make the parser decode it a second time.
+        pt = ast.parse(self.source.lstrip('\ufeff'))
         return pt
 
     def process_finished(self, node):
@@ -748,8 +749,10 @@ def parse_static_calldefs(source=None, fpath=None):
     """
     if source is None:  # pragma: no branch
         try:
-            with open(fpath, 'rb') as file_:
-                source = file_.read().decode('utf-8')
+            # Read the text in the encoding the file declares (BOM or PEP 263
+            # coding cookie, utf-8 otherwise), like the interpreter does.
+            with tokenize.open(fpath) as file_:
+                source = file_.read()
         except Exception:
             try:
                 with open(fpath, 'rb') as file_:
